@@ -8,7 +8,8 @@ from .. import blocks as B
 ID = "C03"
 LEAN_MODULE = "BibVerif.Props.C03"
 RULE = ("corpus; every string of <= k tokens over { } \" , = NL \\ @a a SP behind 6 block prefixes "
-        "(k=4 quick, 5 thorough: exhaustive for that alphabet); random documents with CRLF, backslash-newline, "
+        "(k=4 quick, 5 thorough: exhaustive for that alphabet); every string of <= 4 (thorough 5) tokens over Unicode line boundaries / whitespace that are not the newline mark "
+        "(FF, VT, lone CR, NEL, U+2028, FS, NBSP) mixed with newlines, text and blocks; random documents with CRLF, backslash-newline, "
         "several blocks per line, non-ASCII text. Compared: class, start_line, raw, keys, fields with lines, "
         "abort class of every block the splitter hands to Library.add. Non-trivial = at least one block returned.")
 LEVEL_TEXT = ("Lean theorems tiling_chars / line_true / field_line_true: for EVERY text the raws of the blocks returned by the "
@@ -80,6 +81,11 @@ def gen(tier, rng):
     for t in C.token_strings(C.SPLIT_ALPHABET, k, C.SPLIT_PREFIXES):
         yield {"t": t}
     for t in C.token_strings(["\\\n", "\r\n", "@a{k}", "@comment{c}", " ", "x", "\n", "@a{k,f=", "}"], 4 if tier == "quick" else 5):
+        yield {"t": t}
+    # Unicode line boundaries and whitespace that are NOT the newline mark: str.splitlines / str.isspace treat them
+    # specially, the splitter's line counter must not (only "\n" counts)
+    for t in C.token_strings(["\x0c", "\x0b", "\r", "\x85", "\u2028", "\x1c", "\u00a0", "\n", "x", "@a{k}", "@a{k,\x0cf\u2028=\r1}"],
+                             4 if tier == "quick" else 5):
         yield {"t": t}
     for _ in range(3000 if tier == "quick" else 30000):
         yield {"t": _random_doc(rng)}
